@@ -11,7 +11,8 @@
    image has at most 2^30 rows/columns (BreshamPoints doubles differences of *clamped*
    coordinates, which lie in [0, dim)).  Inputs beyond that are outside the model.
 
-   Only definitions here; proofs are in Draw_proofs.v. *)
+   Only definitions here; proofs are in Draw_proofs.v; the correspondence cases and the
+   property oracle are in DrawCases.v. *)
 From RV Require Import Prelude.
 Open Scope Z_scope.
 
@@ -118,6 +119,9 @@ Definition zrange (lo hi : Z) : list Z :=
 Definition rect_points (r : rect) : list point :=
   flat_map (fun y => map (fun x => (y, x)) (zrange (r_left r) (r_right r))) (zrange (r_top r) (r_bottom r)).
 
+(* all pixels of an h x w image in raster order *)
+Definition all_pixels (h w : Z) : list point := rect_points (from_tlbr 0 0 h w).
+
 Definition fill_rect (h w : Z) (r : rect) : outcome :=
   write_all h w (rect_points (rect_clamp r (from_tlbr 0 0 h w))).
 
@@ -126,6 +130,10 @@ Definition stroke_parts (r : rect) (wd : Z) : list rect :=
     rect_clamp (from_tlbr (r_top r) (r_left r + wd) (r_top r + wd) (r_right r - wd)) r;
     rect_clamp (from_tlbr (r_top r) (r_right r - wd) (r_bottom r) (r_right r)) r;
     rect_clamp (from_tlbr (r_bottom r - wd) (r_left r + wd) (r_bottom r) (r_right r - wd)) r ].
+
+(* the rect shrunk by the border width on every side: what a stroke leaves untouched *)
+Definition stroke_inner (r : rect) (wd : Z) : rect :=
+  from_tlbr (r_top r + wd) (r_left r + wd) (r_bottom r - wd) (r_right r - wd).
 
 Definition stroke_rect (h w : Z) (r : rect) (wd : Z) : outcome :=
   fold_left (fun acc part => seq_out acc (fill_rect h w part)) (stroke_parts r wd) (Writes []).
@@ -140,73 +148,3 @@ Definition edges (pts : list point) : list (point * point) :=
 
 Definition draw_polygon1 (h w : Z) (pts : list point) : outcome :=
   fold_left (fun acc e => seq_out acc (draw_line1 h w (fst e) (snd e))) (edges pts) (Writes []).
-
-(* =====================  correspondence cases  ===================== *)
-Inductive prim :=
-| PFillRect (r : rect)
-| PStrokeRect (r : rect) (width : Z)
-| PLine (s e : point) (width : Z)
-| PPolygon (pts : list point) (width : Z)
-| PPainter (pts : list point) (width : Z).   (* Painter::draw_polygon, every colour channel *)
-
-(* d_impl: None = the call panicked; Some bits = set of pixels of the h x w view whose value
-   changed (bit y*w+x).  d_guard: the harness draws into a view that is the centre of a
-   larger tensor; true iff nothing outside the view changed. *)
-Record dcase := { d_h : Z; d_w : Z; d_prim : prim; d_impl : option Z; d_guard : bool }.
-
-Definition bit_of (w : Z) (p : point) : Z := Z.shiftl 1 (py p * w + px p).
-Definition bits_of (w : Z) (ps : list point) : Z := fold_left (fun acc p => Z.lor acc (bit_of w p)) ps 0.
-
-(* the model, where there is one *)
-Definition model_draw (h w : Z) (pr : prim) : option outcome :=
-  match pr with
-  | PFillRect r => Some (fill_rect h w r)
-  | PStrokeRect r wd => Some (stroke_rect h w r wd)
-  | PLine s e wd => if wd =? 0 then Some (Writes []) else if wd =? 1 then Some (draw_line1 h w s e) else None
-  | PPolygon pts wd | PPainter pts wd =>
-      if wd =? 0 then Some (Writes []) else if wd =? 1 then Some (draw_polygon1 h w pts) else None
-  end.
-
-Definition agree_draw (c : dcase) : bool :=
-  match model_draw (d_h c) (d_w c) (d_prim c), d_impl c with
-  | None, _ => true
-  | Some Panic, None => true
-  | Some (Writes l), Some bits => bits_of (d_w c) l =? bits
-  | _, _ => false
-  end.
-
-(* ---- the property oracle: "only modify pixels inside the image and inside the shape's bounds" ---- *)
-(* bounds of a line of width wd: bounding box of the endpoints, grown by (wd+1)/2 + 1 for
-   wide lines (half the width for the perpendicular offset, 1 for the truncation of the f32
-   corners to i32) *)
-Definition line_margin (wd : Z) : Z := if wd <=? 1 then 0 else (wd + 1) / 2 + 1.
-Definition in_line_bounds (s e : point) (wd : Z) (p : point) : bool :=
-  let m := line_margin wd in
-  (Z.min (py s) (py e) - m <=? py p) && (py p <=? Z.max (py s) (py e) + m) &&
-  (Z.min (px s) (px e) - m <=? px p) && (px p <=? Z.max (px s) (px e) + m).
-
-Definition stroke_inner (r : rect) (wd : Z) : rect :=
-  from_tlbr (r_top r + wd) (r_left r + wd) (r_bottom r - wd) (r_right r - wd).
-
-Definition in_bounds (pr : prim) (p : point) : bool :=
-  match pr with
-  | PFillRect r => in_rect r p
-  | PStrokeRect r wd => in_rect r p && negb (in_rect (stroke_inner r wd) p) && (0 <? wd)
-  | PLine s e wd => in_line_bounds s e wd p && (0 <? wd)
-  | PPolygon pts wd | PPainter pts wd =>
-      existsb (fun e => in_line_bounds (fst e) (snd e) wd p) (edges pts) && (0 <? wd)
-  end.
-
-Definition all_pixels (h w : Z) : list point := rect_points (from_tlbr 0 0 h w).
-Definition allowed_bits (h w : Z) (pr : prim) : Z :=
-  bits_of w (filter (in_bounds pr) (all_pixels h w)).
-
-Definition prop_ok_draw (c : dcase) : bool :=
-  match d_impl c with
-  | None => false                                    (* a panic is not "drawing the visible part" *)
-  | Some bits =>
-      d_guard c && (0 <=? bits) && (Z.land bits (Z.lnot (allowed_bits (d_h c) (d_w c) (d_prim c))) =? 0)
-  end.
-
-Definition show_draw (c : dcase) :=
-  (model_draw (d_h c) (d_w c) (d_prim c), allowed_bits (d_h c) (d_w c) (d_prim c), d_impl c).
